@@ -137,7 +137,7 @@ theorem launching_none (c : Cfg) (hn : NoRep c) (s : State) (hr : Reach c s) (i 
       all_goals first | exact ih | (simp [aePc_ne_check hn] at * <;> (try split) <;> simp_all)
 
 /-- in an unstopped run every worker that can still execute belongs to a node in status `running` -/
-theorem active_running (c : Cfg) (hn : NoRep c) (s : State) (hr : Reach c s) (hc : s.canceled = false)
+theorem active_running_lim (c : Cfg) (hn : NoRep c) (s : State) (hr : Reach c s) (hc : s.canceled = false)
     (j : Nat) : (s.nd j).pc.active = true → (s.nd j).status = .running := by
   induction hr with
   | init => simp [init]
@@ -182,7 +182,7 @@ theorem aw_le_rc (c : Cfg) (hn : NoRep c) (s : State) (hr : Reach c s) (hc : s.c
   rw [activeWorkers_eq, runningCount_eq]
   apply cnt_mono
   intro x _ hx
-  simpa using active_running c hn _ hr hc x hx
+  simpa using active_running_lim c hn _ hr hc x hx
 
 theorem aw_inv (c : Cfg) (hn : NoRep c) (s : State) (hr : Reach c s) (hk : 0 < c.maxActive) :
     activeWorkers c s ≤ c.maxActive ∧ ∀ i, s.loop = .launching i → activeWorkers c s < c.maxActive := by
@@ -291,7 +291,7 @@ theorem status_stable (c : Cfg) (hn : NoRep c) (hf : c.tdFaults = false) (s s' :
     (s'.nd j).status = (s.nd j).status := by
   have hc0 := (step_flags hs).1 hc
   have hL := launching_none c hn _ hr j
-  have hA := active_running c hn _ hr hc0 j
+  have hA := active_running_lim c hn _ hr hc0 j
   cases a with
   | visitDecide i =>
     rcases step_visitDecide hs with ⟨-, -, rfl | ⟨hst, l, -, -, rfl⟩ | ⟨-, -, -, -, rfl⟩⟩
@@ -369,7 +369,7 @@ theorem fin_inv (c : Cfg) (hn : NoRep c) (hdry : c.dry = false) (hf : c.tdFaults
     replace ih := ih hc0 ht0
     have hB := none_idle c hn _ hr j
     have hL := launching_none c hn _ hr j
-    have hA := active_running c hn _ hr hc0 j
+    have hA := active_running_lim c hn _ hr hc0 j
     have hE := ex_inv c hn hdry _ hr j
     have hR := retry_le_limit c _ hr j
     have hN := ranLast_ran c hn hdry _ hr j
